@@ -214,6 +214,8 @@ pub struct World {
     joins: Vec<StdMutex<Option<simrt::thread::JoinHandle<()>>>>,
     pub act_store: BTreeMap<ActId, usize>,
     mw_calls: std::sync::atomic::AtomicUsize,
+    /// per store: a client thread has invoked close()/stop()/drop (harness-side flag, no scheduling point)
+    shut_invoked: Vec<std::sync::atomic::AtomicBool>,
 }
 
 fn to_policy(p: Policy) -> BackpressurePolicy {
@@ -556,6 +558,7 @@ impl World {
             joins: prog.threads.iter().map(|_| StdMutex::new(None)).collect(),
             act_store,
             mw_calls: std::sync::atomic::AtomicUsize::new(0),
+            shut_invoked: prog.stores.iter().map(|_| std::sync::atomic::AtomicBool::new(false)).collect(),
             hist,
             prog,
         })
@@ -675,6 +678,7 @@ impl World {
             Op::Iter { store, it } => OpK::Iter { store: *store, it: *it },
             Op::Next { it, .. } => OpK::Next { it: *it },
             Op::Drain { it } => OpK::Drain { it: *it },
+            Op::NextUntilShut { it, .. } => OpK::Next { it: *it },
             Op::DropIter { it } => OpK::DropIter { it: *it },
             Op::AddReducer { store, tag } => OpK::AddReducer { store: *store, tag: *tag },
             Op::AddMiddleware { store, tag } => OpK::AddMiddleware { store: *store, tag: *tag },
@@ -690,6 +694,9 @@ impl World {
             Op::Build { store } => OpK::Build { store: *store },
         };
         self.log(K::Inv { thr, idx, op: opk });
+        if let Op::Close { store } | Op::Stop { store } | Op::DropStore { store } = op {
+            self.shut_invoked[*store].store(true, std::sync::atomic::Ordering::SeqCst);
+        }
         let res = self.exec_inner(op);
         self.log(K::Ret { thr, idx, res });
     }
@@ -812,6 +819,21 @@ impl World {
             Op::Next { it, n } => {
                 let Some(mut i) = self.iters[*it].lock().unwrap().take() else { return Res::Skipped };
                 for _ in 0..*n {
+                    self.log(K::NextB { it: *it });
+                    let r = i.next();
+                    let item = r.map(|(s, a)| (s.n, s.h, a.id));
+                    let end = item.is_none();
+                    self.log(K::NextR { it: *it, item });
+                    if end {
+                        break;
+                    }
+                }
+                *self.iters[*it].lock().unwrap() = Some(i);
+                Res::Unit
+            }
+            Op::NextUntilShut { it, store } => {
+                let Some(mut i) = self.iters[*it].lock().unwrap().take() else { return Res::Skipped };
+                while !self.shut_invoked[*store].load(std::sync::atomic::Ordering::SeqCst) {
                     self.log(K::NextB { it: *it });
                     let r = i.next();
                     let item = r.map(|(s, a)| (s.n, s.h, a.id));
